@@ -238,9 +238,25 @@ pub async fn run(args: &ShardArgs, rep: &mut Report) {
 			}
 		}
 		let start = rng.usize(chain.len());
+		// the given path need not be a directory, nor exist: a file, or up to three missing trailing components
+		let variant = rng.below(8);
+		let start_path = match variant {
+			0 => {
+				let f = chain[start].join("some-file.rs");
+				std::fs::write(&f, "x").ok();
+				f
+			}
+			1 => chain[start].join("missing.rs"),
+			2 => chain[start].join("gen").join("out.rs"),
+			3 => chain[start].join("a").join("b").join("c.rs"),
+			_ => chain[start].clone(),
+		};
+		if variant < 4 {
+			rep.count(["start_is_a_file", "start_missing_1", "start_missing_2", "start_missing_3"][variant as usize], 1);
+		}
 		let h = {
 			let mut f = Fnv::default();
-			f.u64(start as u64).u64(depth as u64);
+			f.u64(start as u64).u64(depth as u64).u64(variant.min(4));
 			for d in &desc {
 				f.str(d);
 			}
@@ -250,14 +266,75 @@ pub async fn run(args: &ShardArgs, rep: &mut Report) {
 		if !desc.is_empty() {
 			rep.nontrivial(h);
 		}
-		let label = format!("chain depth={depth} start={start} markers={desc:?}");
-		check_dir(rep, &chain[start], &root, &label).await;
+		let label = format!("chain depth={depth} start={start} start-variant={} markers={desc:?}", variant.min(4));
+		check_dir(rep, &start_path, &root, &label).await;
 		if it < 2 {
 			rep.sample(json!({"chain": label}));
 		}
 		std::fs::remove_dir_all(&root).ok();
 	}
 	std::fs::remove_dir_all(&base).ok();
+}
+
+/// Markers in the filesystem root itself: the process confines itself to a scratch tree, whose top then *is* `/`.
+pub async fn root_phase(args: &ShardArgs, rep: &mut Report) {
+	let jail = args.scratch.join("c20-jail");
+	std::fs::create_dir_all(&jail).unwrap();
+	if let Err(e) = std::os::unix::fs::chroot(&jail).and_then(|()| std::env::set_current_dir("/")) {
+		rep.note(&format!("filesystem-root cases not run: chroot is not permitted here ({e})"));
+		return;
+	}
+	let mut rng = args.rng().fork(777);
+	let all_names: Vec<(&str, Node)> = ORIGIN_MARKERS.to_vec();
+	let n = if args.thorough() { 400 } else { 60 };
+	for it in 0..n {
+		// wipe the root
+		for e in std::fs::read_dir("/").unwrap().flatten() {
+			let p = e.path();
+			if p.is_dir() && !p.is_symlink() {
+				std::fs::remove_dir_all(&p).ok();
+			} else {
+				std::fs::remove_file(&p).ok();
+			}
+		}
+		let depth = rng.usize(4);
+		let mut chain = vec![PathBuf::from("/")];
+		for k in 0..depth {
+			let last = chain.last().unwrap().clone();
+			chain.push(last.join(format!("d{k}")));
+		}
+		std::fs::create_dir_all(chain.last().unwrap()).unwrap();
+		let mut desc = Vec::new();
+		for (lvl, dir) in chain.iter().enumerate() {
+			// the root is marked in three cases out of four
+			let nmark = if lvl == 0 { [1, 1, 2, 0][rng.usize(4)] } else { [0, 0, 1, 2][rng.usize(4)] };
+			for _ in 0..nmark {
+				let (name, node) = *rng.pick(&all_names);
+				let actual = if rng.chance(1, 5) { if node == File { Dir } else { File } } else { node };
+				if dir.join(name).exists() {
+					continue;
+				}
+				place(dir, name, actual);
+				desc.push(format!("{lvl}:{name}:{actual:?}"));
+			}
+		}
+		let start = rng.usize(chain.len());
+		rep.eval();
+		rep.count("filesystem_root_cases", 1);
+		if !desc.is_empty() {
+			let mut f = Fnv::default();
+			f.str("fsroot").u64(start as u64).u64(depth as u64);
+			for d in &desc {
+				f.str(d);
+			}
+			rep.nontrivial(f.finish());
+		}
+		let label = format!("filesystem root: depth={depth} start={start} markers={desc:?}");
+		check_dir(rep, &chain[start], Path::new("/"), &label).await;
+		if it == 0 {
+			rep.sample(json!({"chain": label}));
+		}
+	}
 }
 
 fn place(dir: &Path, name: &str, node: Node) {
